@@ -48,3 +48,17 @@ Definition utf8_cp (c : Z) : list Z :=
 Definition utf8_ok (c : Z) : bool := (0 <=? c) && (c <? 1114112) && negb ((55296 <=? c) && (c <? 57344)).
 Definition utf8_encode (s : list Z) : option (list Z) :=
   if forallb utf8_ok s then Some (flat_map utf8_cp s) else None.
+
+(* base64.b64encode, standard alphabet, '=' padding *)
+Definition b64_alphabet : list Z :=
+  map Z.of_nat (seq 65 26) ++ map Z.of_nat (seq 97 26) ++ map Z.of_nat (seq 48 10) ++ [43; 47].
+Definition b64c (v : Z) : Z := nth (Z.to_nat v) b64_alphabet 0.
+Fixpoint b64encode (b : list Z) : list Z :=
+  match b with
+  | [] => []
+  | [x] => [b64c (x / 4); b64c ((x mod 4) * 16); 61; 61]
+  | [x; y] => [b64c (x / 4); b64c ((x mod 4) * 16 + y / 16); b64c ((y mod 16) * 4); 61]
+  | x :: y :: z :: r =>
+      b64c (x / 4) :: b64c ((x mod 4) * 16 + y / 16) :: b64c ((y mod 16) * 4 + z / 64) :: b64c (z mod 64) :: b64encode r
+  end.
+
